@@ -78,6 +78,19 @@ def make_case(tree: Any, prefix: str, origin: str) -> Case:
                 nontrivial=skel[0] in ("S", "U"), tags=tags)
 
 
+SEPARATORS = ["\u2028", "\u2029", "\x85", "\x0b", "\x1c", "\x1d", "\x1e"]
+
+
+def inject_separator(rng: random.Random, texts: List[str]) -> List[str]:
+    words = sorted({w for w in P.WORDS if " " not in w and len(w) >= 3 and any(w in x for x in texts)})
+    if not words:
+        return texts
+    w = rng.choice(words)
+    k = rng.randrange(1, len(w))
+    new = w[:k] + rng.choice(SEPARATORS) + w[k:]
+    return [x.replace(w, new) for x in texts]
+
+
 def compiled_trees(rng: random.Random, n: int) -> List[Tuple[Any, str]]:
     """Root trees of compiled (and sometimes scaled) recipes."""
     from recipe_grid.compiler import compile
@@ -90,6 +103,10 @@ def compiled_trees(rng: random.Random, n: int) -> List[Tuple[Any, str]]:
             kw = dict(max_blocks=2, max_stmts=4, max_depth=3)
         prog = P.gen_program(rng, **kw)
         texts = P.spell(prog, rng)
+        if rng.random() < 0.5:
+            # a Unicode line boundary that is not HTML white space inside a name, written in the SOURCE (the parser
+            # keeps it): every occurrence of one word is respelled, so names still refer to each other
+            texts = inject_separator(rng, list(texts))
         try:
             rs = compile(list(texts))
         except Exception:  # compile errors are C01/C07's business
